@@ -47,7 +47,7 @@ vlib.known_findings = _known
 class P(vlib.Prop):
     pid = "C04"
     coq_dirs = ["Common", "C04", "Generated"]
-    coq_targets = ["C04/Properties.vo", "C04/Witness.vo", "C04/Harness.vo"]
+    coq_targets = ["C04/Properties.vo", "C04/Witness.vo", "C04/Harness.vo", "C04/Checker.vo"]
     properties_module = "C04.Properties"
     properties_file = "C04/Properties.v"
     instance_obligations = ["obl_sov", "obl_bytes_delta", "obl_count_delta", "obl_count_weights", "obl_batch_config_validate"]
@@ -101,6 +101,68 @@ class P(vlib.Prop):
             return False
         rx = sig.get("detail_regex")
         return not rx or re.search(rx, failure["detail"]) is not None
+
+    # ---- independent oracle: the Coq checker of the property's clauses over every OBSERVED case -----------------
+    CLAUSES = {1: ("termination", {"nontermination"}),
+               2: ("conservation", {"conservation", "metric-identity-lost", "batch-conservation", "batch-duplicate",
+                                    "batch-lost-item", "e2e-conservation"}),
+               3: ("size-bound", {"size-bound", "batch-size-bound"}),
+               4: ("cached-size", {"cached-size"}),
+               5: ("all-but-last-full", {"not-full"}),
+               6: ("done-exactly-once", {"done-not-exactly-once"}),
+               7: ("done-error-iff", {"done-error-mismatch"}),
+               9: ("negative-measured-size", set())}
+
+    def clause_codes(self, ctx, terms):
+        """Evaluate Checker.clause_code on every term inside Coq; returns {index: code} for the non-zero ones."""
+        import concurrent.futures
+        res = {}
+        if not terms:
+            return res
+        sh = 120
+        shards = [list(range(i, min(i + sh, len(terms)))) for i in range(0, len(terms), sh)]
+
+        def one(k):
+            vf = os.path.join(ctx.work, "Clauses_%d.v" % k)
+            with open(vf, "w") as f:
+                f.write("From Verif Require Import Common.Base C04.Checker.\n")
+                f.write("Definition cases : list (nat * ccase) := [\n")
+                f.write(";\n".join("(%d, %s)" % (i, terms[i]) for i in shards[k]))
+                f.write("\n].\nDefinition M := Eval vm_compute in (filter (fun x => negb (snd x =? 0)%Z) (map (fun x => (fst x, clause_code (snd x))) cases)).\n")
+                f.write('Goal True. idtac "@@BEGIN". Abort.\nPrint M.\nGoal True. idtac "@@END". Abort.\n')
+            return vlib.run(["coqc", "-Q", vlib.COQ, "Verif", "-w", "-all", "-o", vf + "o", vf], cwd=ctx.work, timeout=900)
+
+        with concurrent.futures.ThreadPoolExecutor(max_workers=vlib.NPROC) as ex:
+            for rc, out in ex.map(one, range(len(shards))):
+                m = re.search(r"@@BEGIN\s*(.*?)@@END", out, re.S)
+                if rc != 0 or not m:
+                    raise vlib.Broken("the clause checker does not evaluate in Coq", out[-2000:])
+                body = m.group(1).split(":=", 1)[-1] if ":=" in m.group(1) else m.group(1).split("=", 1)[-1]
+                body = body.split(": list")[0]
+                for i, code in re.findall(r"\((\d+)%?\w*,\s*\(?(-?\d+)\)?%?\w*\)", body):
+                    res[int(i)] = int(code)
+        return res
+
+    def extra_checks(self, ctx):
+        terms = [c["term"] for c in ctx.cases]
+        t0 = __import__("time").time()
+        codes = self.clause_codes(ctx, terms)
+        by_term = {}
+        for f in ctx.oracle:
+            by_term.setdefault(f["term"], set()).add(f["kind"])
+        added = 0
+        for i, code in sorted(codes.items()):
+            name, go_kinds = self.CLAUSES.get(code, ("clause-%d" % code, set()))
+            if by_term.get(terms[i], set()) & go_kinds:
+                continue            # the Go oracle judged the same clause on the same case (known finding or violation)
+            ctx.oracle.append({"kind": "clause-" + name, "term": terms[i], "harness": ctx.cases[i]["harness"],
+                               "detail": "Coq clause checker (Checker.clause_code = %d) on the observed behaviour; the Go oracle did not flag this case" % code})
+            added += 1
+        ctx.stats["checker.cases"] = len(terms)
+        ctx.stats["checker.clause_failures"] = len(codes)
+        ctx.stats["checker.not_flagged_by_go_oracle"] = added
+        ctx.log("clause checker: %d cases, %d clause failures (%d not flagged by the Go oracle), %.1fs"
+                % (len(terms), len(codes), added, __import__("time").time() - t0))
 
     def translate(self, ctx):
         for pkg in ("exporterhelper", "xexporterhelper"):
